@@ -47,6 +47,9 @@ def oracle(line: str, obs: Obs):
                 c = l.split(" ")[1]
                 d = kv(l)
                 state[c] = d["state"]
+        if t[0] == "acc" and not (set(state) - set(before)):
+            fails.append({"what": "a connection arriving at the listening socket is not taken up any more (no watchdog can ever "
+                                  "run on it)", "event": ev, "real": "no new connection after accept"})
         if t[0] in ("adv", "tick"):
             for c, st in before.items():
                 n = dwrs.get(c, 0)
@@ -140,6 +143,13 @@ def scenarios(rng: random.Random, tier: str):
                            "rx 1 " + nodegen.cea(2001, "peer1.x", 3001, 268435465)]
                 evs += [f"adv {idle + 1}", f"adv {dwa}", "adv 1", "tick"]
                 out.append(line + " | " + " | ".join(evs))
+    # after one connection was given up by the watchdog the next one is watched the same way
+    for idle, dwa in ((1, 1), (2, 1), (2, 3)):
+        line = cfg_line(idle, dwa)
+        evs = ["start", "acc", "rx 0 " + nodegen.cer("peer1.x", "4", nxt(), nxt()), f"adv {idle + 1}", f"adv {dwa + 1}", "acc",
+               "rx 1 " + nodegen.cer("peer1.x", "4", nxt(), nxt()), f"adv {idle + 1}", "rx 1 " + nodegen.dwa(nxt(), nxt()),
+               f"adv {idle + 1}", f"adv {dwa + 1}", "acc", "rx 2 " + nodegen.cer("peer1.x", "4", nxt(), nxt()), f"adv {idle + 1}"]
+        out.append(line + " | " + " | ".join(evs))
     # a request is sent over the connection while its DWA is outstanding; the DWA then arrives in time
     for idle, dwa in ((2, 3), (3, 5)):
         line = cfg_line(idle, dwa)
